@@ -115,7 +115,20 @@ fn scratch() -> PathBuf {
     base.join(format!("fjv-fuzz-{}", std::process::id()))
 }
 
+static TOLERATE_PANICS: std::sync::atomic::AtomicBool = std::sync::atomic::AtomicBool::new(false);
+static HOOK: std::sync::Once = std::sync::Once::new();
+
 fuzz_target!(|data: &[u8]| {
+    // libfuzzer-sys aborts on every panic; a panic inside fjall while opening a DAMAGED journal is
+    // "failed to open" for the oracle, so it is tolerated inside that region only
+    HOOK.call_once(|| {
+        std::panic::set_hook(Box::new(|info| {
+            if !TOLERATE_PANICS.load(std::sync::atomic::Ordering::SeqCst) {
+                eprintln!("{info}");
+                std::process::abort();
+            }
+        }));
+    });
     let mut u = Unstructured::new(data);
     let Ok(lz4) = bool::arbitrary(&mut u) else { return };
     let Ok(program) = ops(&mut u) else { return };
@@ -218,7 +231,9 @@ fuzz_target!(|data: &[u8]| {
             }
         }
     }
+    TOLERATE_PANICS.store(true, std::sync::atomic::Ordering::SeqCst);
     let res = std::panic::catch_unwind(|| dump(&dir, lz4));
+    TOLERATE_PANICS.store(false, std::sync::atomic::Ordering::SeqCst);
     match res {
         Err(_) | Ok(Err(_)) => {
             // failed to open: allowed for damage; NOT allowed for a pure truncation (C03: recovery must succeed)
